@@ -810,6 +810,7 @@ var _ = strings.ToLower
 
 func (ww *WW) op(kind string) {
 	ww.LastOp = kind
+	ww.W.LastWalletOp = kind
 	ww.rc.Op(kind)
 	ww.opLog = append(ww.opLog, opMark{ww.rc.S.EvSeq, kind})
 }
